@@ -15,7 +15,7 @@ def run(tier):
     specs.append(dict(module="neginf_contraction"))
     # directly nested reductions with the two ops of one semiring (sum_x prod_p f, logaddexp over add, max over add)
     for c in ("addmul", "logadd", "maxadd"):
-        specs.append(dict(module="nestred", cfg="nestred_" + c, limit=1500 if tier == "quick" else None))
+        specs.append(dict(module="nestred", cfg="nestred_" + c, limit=1500 if tier == "quick" else 4000))
     rp = replay.run_many("harness.modes:c08", specs, parallel=4)
     out.add_replay(rp, "termmachine")
     # implementation-shaped model of the optimizer's path loop: every path, forced onto the code
